@@ -26,6 +26,10 @@ Decided clauses:
        tracked with their offset). A reset that runs after the copy wipes it, and the last 8 header bytes are unauthenticated.
   R9.7 rekey transforms (k || inonce): the 40 bytes handed to ChaCha20 are state bytes [0, 32) followed by the inonce region (not
        the counter), and the result is written back to the same two regions.
+  R9.8 the zero padding of the Poly1305 transcript has the documented lengths: after the associated data (-adlen) mod 16 bytes, after the
+       ciphertext (mlen - 48) mod 16 = mlen mod 16 bytes - the historical quirk that defines the wire format. Both are `x & 15`
+       with x affine in the length parameter; the coefficient and the constant are compared modulo 16 (so any algebraically
+       equivalent spelling passes, a "fixed" (-(64 + mlen)) mod 16 does not).
   R9.3 short input rejected, *mlen_p == 0 on failure (instances of R2.3 / R2.4).
 NOT decided: history-level delivery/ordering, behaviour at counter wrap as arithmetic, interop bytes.
 """
@@ -287,6 +291,7 @@ def run(ctx, chk):
     counter_reset_rule(ctx, prog, chk, push)
     length_block_rule(prog, chk, push, pull)
     layout_rule(ctx, prog, chk, push)
+    pad_rule(prog, chk, push, pull)
 
 
 def region_final(prog, hz, p, root, lo, hi):
@@ -643,3 +648,35 @@ def layout_rule(ctx, prog, chk, push):
                                                     if not ok_in else "the transformed bytes are not what the key / inonce regions hold at exit"),
                key="R9.7 rekey layout")
     chk.floor("R9.7", "returning paths of rekey", n7, 1)
+
+
+def pad_rule(prog, chk, push, pull):
+    ab = prog.K("crypto_secretstream_xchacha20poly1305_ABYTES")
+    n = 0
+    for fn, mname, mconst in ((push, "mlen", 0), (pull, "inlen", -ab)):
+        ADLEN = ("arg", fn.param_index("adlen"))
+        MLEN = ("arg", fn.param_index(mname))
+        for p in cm.paths(prog, fn):
+            if p.kind != "ret" or not p.may_return_zero():
+                continue
+            pads = [e for e in p.calls("crypto_onetimeauth_poly1305_update") if len(e.args) >= 3 and T.root(e.args[1])[0] == "g"]
+            if len(pads) != 2:
+                continue
+            n += 1
+            why = []
+            for e, var, coef, const, what in ((pads[0], ADLEN, -1, 0, "after the associated data"), (pads[1], MLEN, 1, mconst, "after the ciphertext")):
+                L = e.args[2]
+                while L[0] == "cast":
+                    L = L[2]
+                if not (L[0] == "bin" and L[1] == "and" and (L[3] == C(15, 64) or L[2] == C(15, 64) or
+                                                             (L[3][0] == "c" and L[3][1] == 15) or (L[2][0] == "c" and L[2][1] == 15))):
+                    why.append("padding %s is not of the form x & 15" % what)
+                    continue
+                X = L[2] if L[3][0] == "c" else L[3]
+                co, k = T.linear(X)
+                if set(co) != {var} or co[var] % 16 != coef % 16 or k % 16 != const % 16:
+                    why.append("padding %s is (%s) & 15: documented is (%d * %s %+d) mod 16" %
+                               (what, T.show(X, fn), coef, fn.params[var[1]]["name"], const))
+            chk.ob("R9.8", fn, "transcript padding: (-adlen) mod 16 zero bytes after the AD, (mlen - 48) mod 16 after the ciphertext", not why,
+                   loc=fn.loc(pads[1].iid), path=None if not why else p, detail="; ".join(why), key="R9.8 %s padding" % fn.sname)
+    chk.floor("R9.8", "authenticating success paths of push / pull with both paddings", n, 4)
